@@ -158,6 +158,11 @@ func init() {
 		Run:    func(plan any, tape *Tape, ss uint64) *RunResult { return RunC16(plan.(*C16Plan)) },
 		Decode: func(b json.RawMessage) (any, error) { p := &C16Plan{}; return p, json.Unmarshal(b, p) },
 	})
+	register(&Family{Prop: "C11", Name: "c11", Weight: 1,
+		Gen:    func(r *RNG) any { return GenC11(r) },
+		Run:    func(plan any, tape *Tape, ss uint64) *RunResult { return RunC11(plan.(*C11Plan), tape, ss) },
+		Decode: func(b json.RawMessage) (any, error) { p := &C11Plan{}; return p, json.Unmarshal(b, p) },
+	})
 	register(cliFamily("C07", "c07", 1, GenC07, c07Online, c07Final,
 		func(w *CliWorld, r *RunResult) { r.Nontrivial = c07Nontrivial(w) }))
 	register(cliFamily("C02", "c02-split", 1, GenC02Split, nil, func(w *CliWorld) *Violation { return c02Final(w, "C02") },
